@@ -191,6 +191,39 @@ theorem C17_rebuilt_when_covered (m : Bytes) (hm : 0 < m.length) (fs : List Frag
   have h1 : complete (run (newBuf m.length) fs).1 = true := by rw [C17_complete_iff_spec _ hm]; exact hcov
   exact ⟨h1, run_exact m hm fs hc h1⟩
 
+theorem covered_perm (n : Nat) (fs fs' : List Frag) (hp : fs.Perm fs') (i : Nat) :
+    FragmentSpec.covered n (fs.map toSpec) i = FragmentSpec.covered n (fs'.map toSpec) i := by
+  unfold FragmentSpec.covered
+  exact (hp.map toSpec).any_eq
+
+/-- **Order independence, stated outright.** Two arrival orders of the same fragments (any permutation of
+the list, duplicates and overlaps included): the buffer is complete after the one iff after the other,
+and when the fragments carry bytes of `m` a complete buffer holds the same bytes — `m` — under both. -/
+theorem C17_order_independent (m : Bytes) (hm : 0 < m.length) (fs fs' : List Frag) (hp : fs.Perm fs')
+    (hc : ∀ f ∈ fs, f.off + f.len ≤ m.length → Consistent m f) :
+    complete (run (newBuf m.length) fs).1 = complete (run (newBuf m.length) fs').1 ∧
+    (complete (run (newBuf m.length) fs).1 = true →
+      assembled (run (newBuf m.length) fs).1 = m ∧ assembled (run (newBuf m.length) fs').1 = m) := by
+  have hcomp : complete (run (newBuf m.length) fs).1 = complete (run (newBuf m.length) fs').1 := by
+    rw [C17_complete_iff_spec _ hm, C17_complete_iff_spec _ hm]
+    unfold FragmentSpec.isComplete
+    congr 1
+    funext i
+    exact covered_perm _ _ _ hp i
+  refine ⟨hcomp, fun h => ⟨run_exact m hm fs hc h, ?_⟩⟩
+  have hc' : ∀ f ∈ fs', f.off + f.len ≤ m.length → Consistent m f :=
+    fun f hf => hc f (hp.mem_iff.mpr hf)
+  exact run_exact m hm fs' hc' (hcomp ▸ h)
+
+/-- non-vacuity: three bytes in two overlapping fragments, both arrival orders, complete and equal -/
+example :
+    let m : Bytes := [1, 2, 3]
+    let a : Frag := ⟨0, 2, [1, 2]⟩
+    let b : Frag := ⟨1, 2, [2, 3]⟩
+    complete (run (newBuf m.length) [a, b]).1 = true ∧ assembled (run (newBuf m.length) [a, b]).1 = m ∧
+    complete (run (newBuf m.length) [b, a]).1 = true ∧ assembled (run (newBuf m.length) [b, a]).1 = m ∧
+    complete (run (newBuf m.length) [a]).1 = false := by decide
+
 /-! ### sender ∘ receiver -/
 
 /-- **Sender/receiver round trip at buffer level, independent of the path MTU.** For every
